@@ -20,7 +20,7 @@ CHECKS = {
          "trace validation against the forwarding protocol automaton", "5 C09"),
  "C10": ("Tally.tla / MC_Alloc / AllocTrace.tla", "TLC: MC_Alloc proves that the incremental tally arithmetic equals the declarative definition (per-kind counts/sums, prefix maxima incl. the empty prefix) for all operation sequences up to the bound, two threads; trace validation: the real thread-local tally read back after every scripted operation on 1..8 interleaved threads equals Tally.tla's Apply; all short operation sequences of the model's domain are replayed through the real profiler",
          "model checking + trace validation + exhaustive replay of the model's small domain", "5 C10"),
- "C06": ("Pool.tla / VStd.tla", "TLC: exhaustive MC of Pool.tla (all interleavings, panic subsets, spurious wake-ups, histories) with four necessity variants that must fail; trace validation of the real ThreadPool under the baton scheduler (random + DFS schedules) against Pool.tla (L2) with VStd monitors as fallback (L1); replay of a path cover of the model's state graph through the real pool",
+ "C06": ("Pool.tla / VStd.tla", "TLC: MC_Extend (par_extend and the reused result buffer: an empty entry exactly for the calls that panicked, nothing stale below the length; the fill-only-when-grown shortcut is the expected-to-fail variant); TLC: exhaustive MC of Pool.tla (all interleavings, panic subsets, spurious wake-ups, histories) with four necessity variants that must fail; trace validation of the real ThreadPool under the baton scheduler (random + DFS schedules) against Pool.tla (L2) with VStd monitors as fallback (L1); replay of a path cover of the model's state graph through the real pool",
          "model checking + both conformance directions; happens-before computed from the orderings the code actually passes", "5 C06"),
  "C07": ("Pool.tla / VStd.tla", "TLC: NoDeadlock invariant and <>AllDone under weak fairness on Pool.tla; on the implementation: scheduler-detected deadlocks / leaked workers are trace events rejected by NoDeadlockObserved / NoLeakObserved; preemption-bounded DFS over schedules",
          "model checking (safety + liveness) + trace validation", "5 C07"),
